@@ -244,42 +244,44 @@ def r14_3(ctx):
             env_base[k.arg] = Iv.point(float(k.value.value))
         else:
             env_base.pop(k.arg, None)
-    env_base["prev_step_size"] = Iv(0.0, INF, lo_open=True)
     results = {}
+    homogeneous = True
     for case, err_iv in (("rejected (err > 1)", Iv(1.0, INF, lo_open=True)), ("accepted (err <= 1)", Iv(0.0, 1.0, lo_open=True))):
-        env = dict(env_base)
-        env["error_estimate"] = err_iv
-        env["prev_error_ratio"] = Iv(0.0, INF, lo_open=True)
+        ranges = []
+        # the new step size is read off the returned expression itself (first element of the returned pair) for a
+        # previous step size of exactly 1 -- its range is then the range of the factor -- and of exactly 4, which must
+        # give four times that range (the proposal is proportional to the previous step size)
+        for prev in (1.0, 4.0):
+            env = dict(env_base)
+            env["prev_step_size"] = Iv.point(prev)
+            env["error_estimate"] = err_iv
+            env["prev_error_ratio"] = Iv(0.0, INF, lo_open=True)
 
-        def decide(test, e, case=case):
-            t = ast.unparse(test)
-            rej = case.startswith("rejected")
-            if t == "error_estimate > 1":
-                return rej
-            if t == "error_estimate <= 1":
-                return not rej
-            if t in ("prev_error_ratio is None", "prev_error_ratio is not None"):
-                return None
-            raise AnalysisError(f"update_step_size: unexpected test `{t}`", where=astq.loc(fn, test))
-        ev = IntervalEval(env, fn, decide)
-        body = [s for s in fn.node.body if not (isinstance(s, ast.Expr) and isinstance(s.value, ast.Constant))]
-        r = ev.block(body)
-        if r is None or r[0] != "return":
-            raise AnalysisError("update_step_size: could not reach its return", where=astq.loc(fn))
-        ret = r[1]
-        # the returned step size is a local `new = prev_step_size * factor` (either order): `factor` is whatever local
-        # multiplies the previous step size -- identified by structure, not by name
-        new_name, fac_name = _new_and_factor(fn, ret)
-        if fac_name is None:
-            rep.fail("R14.3", astq.loc(fn), f"{fn.key}::R14.3::new-step",
-                     "the returned step size is not `prev_step_size * factor`")
-            ctx.floor("R14.3", 1)
-            return
-        if fac_name not in r[2]:
-            raise AnalysisError(f"update_step_size: no range for the factor `{fac_name}` at the return", where=astq.loc(fn))
-        results[case] = (r[2][fac_name], r[2].get(new_name), True)
-    f_rej, new_rej, ok1 = results["rejected (err > 1)"]
-    f_acc, new_acc, ok2 = results["accepted (err <= 1)"]
+            def decide(test, e, case=case):
+                t = ast.unparse(test)
+                rej = case.startswith("rejected")
+                if t in ("error_estimate > 1", "1 < error_estimate"):
+                    return rej
+                if t in ("error_estimate <= 1", "1 >= error_estimate"):
+                    return not rej
+                if t in ("prev_error_ratio is None", "prev_error_ratio is not None"):
+                    return None
+                raise AnalysisError(f"update_step_size: unexpected test `{t}`", where=astq.loc(fn, test))
+            ev = IntervalEval(env, fn, decide)
+            body = [s for s in fn.node.body if not (isinstance(s, ast.Expr) and isinstance(s.value, ast.Constant))]
+            r = ev.block(body)
+            if r is None or r[0] != "return":
+                raise AnalysisError("update_step_size: could not reach its return", where=astq.loc(fn))
+            ret = r[1]
+            if not (isinstance(ret, ast.Tuple) and len(ret.elts) == 2):
+                raise AnalysisError("update_step_size no longer returns a pair (new step size, error ratio)", where=astq.loc(fn, ret))
+            ranges.append(IntervalEval(r[2], fn, decide).expr(ret.elts[0]))
+        f1, f4 = ranges
+        if not (abs(f4.lo - 4 * f1.lo) <= 1e-12 * max(1.0, abs(f4.lo)) and (f4.hi == 4 * f1.hi or abs(f4.hi - 4 * f1.hi) <= 1e-12 * abs(f4.hi))):
+            homogeneous = False
+        results[case] = f1
+    f_rej = results["rejected (err > 1)"]
+    f_acc = results["accepted (err <= 1)"]
     rep.check(f_rej.positive() and f_rej.lt(1.0), "R14.3", astq.loc(fn), f"{fn.key}::R14.3::reject-shrinks",
               f"on err > 1 the step-size factor ranges over {f_rej}: a rejected step is not guaranteed to shrink strictly "
               f"(and stay positive), so repeated rejection need not reach dt_min", f"factor in {f_rej} subset (0, 1)",
@@ -287,11 +289,9 @@ def r14_3(ctx):
     rep.check(f_acc.ge(1.0) and f_acc.hi < INF, "R14.3", astq.loc(fn), f"{fn.key}::R14.3::accept-bounded",
               f"on err <= 1 the step-size factor ranges over {f_acc}: must be >= 1 and bounded",
               f"factor in {f_acc}", facts={"factor": repr(f_acc)})
-    # new_step_size = prev_step_size * factor
-    rets = [n for n in ast.walk(fn.node) if isinstance(n, ast.Return) and n.value is not None]
-    ok = len(rets) == 1 and _new_and_factor(fn, rets[0].value)[1] is not None and ok1 and ok2
-    rep.check(ok, "R14.3", astq.loc(fn), f"{fn.key}::R14.3::new-step",
-              "the returned step size is not `prev_step_size * factor`", "new = prev * factor, returned first")
+    rep.check(homogeneous, "R14.3", astq.loc(fn), f"{fn.key}::R14.3::new-step",
+              "the returned step size is not proportional to prev_step_size (evaluated for prev_step_size = 1 and 4)",
+              "new = prev * factor, returned first")
     # the call passes the current step size as prev_step_size and the estimate as error_estimate
     err, size = _role_names(model)
     kw = {k.arg: ast.unparse(k.value) for k in call.keywords}
